@@ -288,7 +288,9 @@ func (cs *ContractSet) ParseContractText(file, pkg, text string, trusted bool) {
 			}
 			switch kw {
 			case "requires":
-				cur.Requires = append(cur.Requires, Clause{E: parse(rl.n, rest), Src: rest})
+				for _, part := range splitConj(parse(rl.n, rest)) {
+					cur.Requires = append(cur.Requires, Clause{E: part, Src: cexprString(part)})
+				}
 			case "ensures":
 				cur.Ensures = append(cur.Ensures, Clause{E: parse(rl.n, rest), Src: rest})
 			case "pow10_max":
@@ -425,4 +427,12 @@ func (cs *ContractSet) LoadDir(dir, suffix string, trusted bool) error {
 		}
 	}
 	return nil
+}
+
+// splitConj splits a top-level conjunction into its conjuncts (finer-grained obligations).
+func splitConj(e CExpr) []CExpr {
+	if b, ok := e.(*CBinary); ok && b.Op == "&&" {
+		return append(splitConj(b.X), splitConj(b.Y)...)
+	}
+	return []CExpr{e}
 }
